@@ -49,7 +49,7 @@ func (w *World) lemmaVC(lm *Lemma) *VC {
 	vc := &VC{w: w, enc: NewEnc(w), name: "lemma." + lm.Name,
 		vals: map[ssa.Value]string{}, tuples: map[ssa.Value][]string{}, ordinals: map[string]int{},
 		globals: map[*ssa.Global]int{}, params: map[string]SpecVal{}, assumed: map[string]bool{}, usedLemmas: map[string]bool{}, usedFns: map[string]bool{},
-		debugVars: map[string][]debugDef{}, callCount: map[string]int{}}
+		debugVars: map[string][]debugDef{}, callCount: map[string]int{}, labels: map[string]*stateLabel{}}
 	vc.pkg = w.pkgForFile(lm.File)
 	vc.defTags = lm.Tags
 	func() {
@@ -81,8 +81,11 @@ func (w *World) lemmaVC(lm *Lemma) *VC {
 				vc.assume("true", vc.typeInv(st, n, gt))
 			}
 		}
+		ownReq := map[string]bool{}
 		for _, c := range lm.Requires {
-			vc.assume("true", vc.evalBool(c.Expr, env))
+			r := vc.evalBool(c.Expr, env)
+			ownReq[r] = true
+			vc.assume("true", r)
 		}
 		cn := vc.oblige("canary", "requires", "true", "false", nil, 0, "lemma precondition must be satisfiable")
 		cn.Canary = true
@@ -109,7 +112,11 @@ func (w *World) lemmaVC(lm *Lemma) *VC {
 					// instantiate as (req' && 0<=m2<m) ==> ens'
 					var reqs, enss []string
 					for _, c := range lm.Requires {
-						reqs = append(reqs, vc.evalBool(c.Expr, n))
+						r := vc.evalBool(c.Expr, n)
+						if ownReq[r] {
+							continue // identical to an assumed hypothesis of this proof
+						}
+						reqs = append(reqs, r)
 					}
 					for _, c := range lm.Ensures {
 						enss = append(enss, vc.evalBool(c.Expr, n))
